@@ -133,15 +133,45 @@ func mentions(e b6.Expression, names map[string]bool) bool {
 	return false
 }
 
-func containsCall(e b6.Expression) bool {
-	switch x := e.AnyExpression.(type) {
-	case b6.CallExpression:
+// valueLike reports whether evaluating e has no effect under the reference
+// semantics: symbols, literals, lambdas, and the zero-argument call of a
+// non-variadic global of arity > 0 (a partial application binding nothing).
+func (l *Lib) valueLike(e b6.Expression) bool {
+	c, ok := e.AnyExpression.(b6.CallExpression)
+	if !ok {
 		return true
-	case b6.LambdaExpression:
-		_ = x
-		return false // a lambda is a value; its body is not evaluated
+	}
+	if len(c.Args) != 0 {
+		return false
+	}
+	if sym, ok := c.Function.AnyExpression.(b6.SymbolExpression); ok {
+		if g, ok := l.Global(string(sym)); ok && !g.Variadic && g.Arity() > 0 {
+			return true
+		}
 	}
 	return false
+}
+
+// headArity returns the arity of a call's function expression when it is
+// statically known.
+func (l *Lib) headArity(h b6.Expression) (arity int, variadic bool, known bool) {
+	switch x := h.AnyExpression.(type) {
+	case b6.SymbolExpression:
+		if g, ok := l.Global(string(x)); ok {
+			return g.Arity(), g.Variadic, true
+		}
+	case b6.LambdaExpression:
+		return len(x.Args), false, true
+	case b6.CallExpression:
+		if len(x.Args) == 0 {
+			if sym, ok := x.Function.AnyExpression.(b6.SymbolExpression); ok {
+				if g, ok := l.Global(string(sym)); ok && g.Arity() > 0 {
+					return g.Arity(), g.Variadic, true
+				}
+			}
+		}
+	}
+	return 0, false, false
 }
 
 func queryLiterals(e b6.Expression, out *[]string) {
@@ -158,37 +188,78 @@ func queryLiterals(e b6.Expression, out *[]string) {
 	}
 }
 
-// ClassifyChange names the rewrite Simplify applied, judged on the first
-// (preorder) lambda of p that no longer exists in s.
-func (l *Lib) ClassifyChange(p, s b6.Expression) string {
-	lp, ls := map[int]b6.Expression{}, map[int]b6.Expression{}
-	lambdaStamps(p, lp)
-	lambdaStamps(s, ls)
-	first := 0
-	for st := range lp {
-		if _, ok := ls[st]; !ok && (first == 0 || st < first) {
-			first = st
+// changeClasses, most culpable first: the class reported for a program is the
+// best-ranked class among the lambdas of p that no longer exist in s (ties:
+// first in preorder).
+var changeRank = map[string]int{
+	"eta:parameters-not-all-consumed":           0,
+	"eta:parameter-used-again-after-the-prefix": 0,
+	"eta:variadic-function-becomes-a-full-call": 1,
+	"eta:function-arity-smaller-than-the-call":  1,
+	"eta:function-expression-evaluated-early":   2,
+	"eta:remaining-arguments-evaluated-early":   2,
+	"eta:arity-of-function-differs":             3,
+	"eta:function-of-unknown-arity":             4,
+	"eta:after-inner-rewrite":                   5,
+	"eta:full":                                  6,
+	"eta:prefix-with-remaining-arguments":       6,
+	"zero-parameter-lambda-inlined":             6,
+}
+
+// residual is the harness's own model of the lambda / zero-argument-call
+// rewrites of api.Simplify; it is used ONLY to name the rewrite that was
+// applied to a lambda whose body was itself rewritten first (the verdict never
+// depends on it).
+func (l *Lib) residual(e b6.Expression) b6.Expression {
+	switch x := e.AnyExpression.(type) {
+	case b6.LambdaExpression:
+		body := l.residual(x.Expression)
+		if call, ok := body.AnyExpression.(b6.CallExpression); ok && len(x.Args) > 0 {
+			i := 0
+			for i < len(x.Args) && i < len(call.Args) {
+				if sym, ok := call.Args[i].AnyExpression.(b6.SymbolExpression); !ok || string(sym) != x.Args[i] {
+					break
+				}
+				i++
+			}
+			if i > 0 {
+				if i == len(call.Args) {
+					return call.Function
+				}
+				e.AnyExpression = b6.CallExpression{Function: call.Function, Args: call.Args[i:]}
+				return e
+			}
 		}
+		e.AnyExpression = b6.LambdaExpression{Args: x.Args, Expression: body}
+		return e
+	case b6.CallExpression:
+		f := l.residual(x.Function)
+		args := make([]b6.Expression, len(x.Args))
+		for i, a := range x.Args {
+			args[i] = l.residual(a)
+		}
+		if len(args) == 0 {
+			if sym, ok := f.AnyExpression.(b6.SymbolExpression); ok {
+				if g, ok := l.Global(string(sym)); ok && g.Arity() > 0 && !g.Variadic {
+					return f
+				}
+			} else if lam, ok := f.AnyExpression.(b6.LambdaExpression); ok && len(lam.Args) == 0 {
+				return lam.Expression
+			}
+		}
+		e.AnyExpression = b6.CallExpression{Function: f, Args: args, Pipelined: x.Pipelined}
+		return e
 	}
-	if first == 0 {
-		var qp, qs []string
-		queryLiterals(p, &qp)
-		queryLiterals(s, &qs)
-		if len(qp) != len(qs) {
-			return "query-building-call"
-		}
-		if strings.Join(qp, " ") != strings.Join(qs, " ") {
-			return "query-literal-flattened"
-		}
-		return "zero-argument-call"
-	}
-	lam := lp[first].AnyExpression.(b6.LambdaExpression)
+	return e
+}
+
+func (l *Lib) classifyLambda(lam b6.LambdaExpression) string {
 	if len(lam.Args) == 0 {
 		return "zero-parameter-lambda-inlined"
 	}
-	call, ok := lam.Expression.AnyExpression.(b6.CallExpression)
+	call, ok := l.residual(lam.Expression).AnyExpression.(b6.CallExpression)
 	if !ok {
-		return "eta:body-became-a-call"
+		return "eta:after-inner-rewrite"
 	}
 	i := 0
 	for i < len(lam.Args) && i < len(call.Args) {
@@ -197,6 +268,9 @@ func (l *Lib) ClassifyChange(p, s b6.Expression) string {
 		}
 		i++
 	}
+	if i == 0 {
+		return "eta:after-inner-rewrite"
+	}
 	params := map[string]bool{}
 	for _, a := range lam.Args {
 		params[a] = true
@@ -204,35 +278,70 @@ func (l *Lib) ClassifyChange(p, s b6.Expression) string {
 	if i < len(lam.Args) {
 		return "eta:parameters-not-all-consumed"
 	}
-	rest := false
-	for _, a := range call.Args[i:] {
-		if mentions(a, params) {
-			rest = true
-		}
-	}
-	if rest || mentions(call.Function, params) {
+	if mentions(call.Function, params) {
 		return "eta:parameter-used-again-after-the-prefix"
 	}
-	if containsCall(call.Function) {
+	for _, a := range call.Args[i:] {
+		if mentions(a, params) {
+			return "eta:parameter-used-again-after-the-prefix"
+		}
+	}
+	arity, variadic, known := l.headArity(call.Function)
+	if known && variadic && len(call.Args)-i >= arity-1 {
+		return "eta:variadic-function-becomes-a-full-call"
+	}
+	if known && !variadic && arity < len(call.Args) {
+		return "eta:function-arity-smaller-than-the-call"
+	}
+	if !l.valueLike(call.Function) {
 		return "eta:function-expression-evaluated-early"
 	}
 	for _, a := range call.Args[i:] {
-		if containsCall(a) {
+		if !l.valueLike(a) {
 			return "eta:remaining-arguments-evaluated-early"
 		}
 	}
+	if !known {
+		return "eta:function-of-unknown-arity"
+	}
+	if !variadic && arity != len(call.Args) {
+		return "eta:arity-of-function-differs"
+	}
 	if i == len(call.Args) {
-		if sym, ok := call.Function.AnyExpression.(b6.SymbolExpression); ok {
-			if g, ok := l.Global(string(sym)); ok && g.Arity() != len(lam.Args) {
-				return "eta:arity-of-function-differs"
-			}
-		}
-		if fl, ok := call.Function.AnyExpression.(b6.LambdaExpression); ok && len(fl.Args) != len(lam.Args) {
-			return "eta:arity-of-function-differs"
-		}
 		return "eta:full"
 	}
 	return "eta:prefix-with-remaining-arguments"
+}
+
+// ClassifyChange names the rewrite Simplify applied (the failing input class).
+func (l *Lib) ClassifyChange(p, s b6.Expression) string {
+	lp, ls := map[int]b6.Expression{}, map[int]b6.Expression{}
+	lambdaStamps(p, lp)
+	lambdaStamps(s, ls)
+	best, bestRank, bestStamp := "", 99, 0
+	for st, le := range lp {
+		if _, ok := ls[st]; ok {
+			continue
+		}
+		c := l.classifyLambda(le.AnyExpression.(b6.LambdaExpression))
+		r := changeRank[c]
+		if r < bestRank || (r == bestRank && st < bestStamp) {
+			best, bestRank, bestStamp = c, r, st
+		}
+	}
+	if best != "" {
+		return best
+	}
+	var qp, qs []string
+	queryLiterals(p, &qp)
+	queryLiterals(s, &qs)
+	if len(qp) != len(qs) {
+		return "query-building-call"
+	}
+	if strings.Join(qp, " ") != strings.Join(qs, " ") {
+		return "query-literal-flattened"
+	}
+	return "zero-argument-call"
 }
 
 // Simplified runs api.Simplify on a fresh tree with panic capture.
@@ -245,7 +354,7 @@ func (l *Lib) Simplified(in b6.Expression) (s b6.Expression, panicClass string, 
 }
 
 // judge22 compares original and simplified outcomes (reference and VM).
-func judge22(t *Tally, what, pTxt, sTxt, reason string, refP, refS Outcome, evP, evS Events, vmP, vmS Outcome) {
+func judge22(t *Tally, what, pTxt, sTxt, reason string, staticBad bool, refP, refS Outcome, evP, evS Events, vmP, vmS Outcome) {
 	semantic := !Agree(refP, refS)
 	if semantic {
 		t.Outcome(what + "CHANGED-MEANING:" + reason)
@@ -273,6 +382,12 @@ func judge22(t *Tally, what, pTxt, sTxt, reason string, refP, refS Outcome, evP,
 	}
 	if semantic {
 		return // already reported once, with the reference-level class
+	}
+	if staticBad {
+		// the static check already reported the unbound / re-bound parameter that
+		// makes the VM reject or mis-evaluate the simplified tree
+		t.Outcome(what + "vm-differs(see static violation):" + reason)
+		return
 	}
 	if evP.Escaped || evS.Escaped || evP.VariadicPartial || evS.VariadicPartial {
 		t.Outcome(what + "unsettled(U1/U2):vm-differs:" + reason)
@@ -302,7 +417,9 @@ func (l *Lib) Check22(t *Tally, build func() b6.Expression) (evals int64, change
 		return 0, false
 	}
 	reason := l.ClassifyChange(p, s)
+	staticBad := false
 	if cls, detail := l.StaticBindingCheck(p, s); cls != "" {
+		staticBad = true
 		t.Outcome("STATIC:" + cls + ":" + reason)
 		t.Violate("static:"+cls+":"+reason, "%s\n original:   %s\n simplified: %s", detail, pTxt, sTxt)
 	}
@@ -315,7 +432,7 @@ func (l *Lib) Check22(t *Tally, build func() b6.Expression) (evals int64, change
 	vmP := l.RunVM(build())
 	vmS := l.RunVM(DeepCopy(s))
 	evals += 2
-	judge22(t, "", pTxt, sTxt, reason, refP, refS, evP, evS, vmP, vmS)
+	judge22(t, "", pTxt, sTxt, reason, staticBad, refP, refS, evP, evS, vmP, vmS)
 
 	// behaviour of function results: Simplify(call p 5 6 7) vs call p 5 6 7
 	cur := build
@@ -326,7 +443,8 @@ func (l *Lib) Check22(t *Tally, build func() b6.Expression) (evals int64, change
 		for set := range l.Probes {
 			set := set
 			inner := cur
-			mk := func() b6.Expression { return l.Probe(inner(), k, set) }
+			d := depth
+			mk := func() b6.Expression { return l.Probe(inner(), k, set, d) }
 			pp := mk()
 			ps, pc, pm := l.Simplified(mk())
 			if pc != "" {
@@ -341,7 +459,7 @@ func (l *Lib) Check22(t *Tally, build func() b6.Expression) (evals int64, change
 			pvmP := l.RunVM(mk())
 			pvmS := l.RunVM(DeepCopy(ps))
 			evals += 2
-			judge22(t, "probe:", Print(pp), Print(ps), reason, prefP, prefS, pevP, pevS, pvmP, pvmS)
+			judge22(t, "probe:", Print(pp), Print(ps), reason, staticBad, prefP, prefS, pevP, pevS, pvmP, pvmS)
 			if set == 0 {
 				r = prefP
 				next = mk
